@@ -9,9 +9,11 @@ package vsync
 
 import (
 	"fmt"
+	"os"
 	"reflect"
 	"runtime"
 	"sort"
+	"strconv"
 	"strings"
 	"sync"
 	"sync/atomic"
@@ -29,9 +31,9 @@ const (
 	opCondWake // blocked in Cond.Wait until signalled
 	opWGWait
 	opOnce
-	opSelect // also plain send / recv (one case, no default)
-	opSleep  // blocked until the virtual clock reaches a deadline (timer pseudo-event wakes it)
-	opJoin   // harness: wait for thread termination
+	opSelect  // also plain send / recv (one case, no default)
+	opSleep   // blocked until the virtual clock reaches a deadline (timer pseudo-event wakes it)
+	opJoin    // harness: wait for thread termination
 	opQuiesce // harness: enabled only when no other thread can run
 )
 
@@ -129,7 +131,7 @@ type Exec struct {
 	OnTimerFire func(thread string)
 	timerFires  int
 	watch       atomic.Int64 // last progress (unix nano) for the foreign-blocking watchdog
-	Stalled             bool
+	Stalled     bool
 }
 
 var current atomic.Pointer[Exec]
@@ -440,18 +442,31 @@ func (e *Exec) digest() uint64 {
 	return h
 }
 
+// watchdog: real time without reaching a scheduling point after which a run is given up as HARNESS-ERROR.
+var watchdog = func() time.Duration {
+	if v, err := strconv.Atoi(os.Getenv("VERIF_WATCHDOG_S")); err == nil && v > 0 {
+		return time.Duration(v) * time.Second
+	}
+	return 600 * time.Second
+}()
+
 // loop is the scheduler.
 func (e *Exec) loop() {
 	running := e.threads[0]
 	first := true
+	// The watchdog only ends runs in which a thread blocks natively in un-instrumented code; it is generous (an
+	// overloaded machine can delay a runnable goroutine for a long time) and one timer is reused for all steps.
+	wd := time.NewTimer(watchdog)
+	defer wd.Stop()
 	for {
 		if !first {
 			// wait for the running thread to park or finish (with a watchdog for foreign blocking)
+			wd.Reset(watchdog)
 			select {
 			case <-e.parked:
-			case <-time.After(60 * time.Second):
+			case <-wd.C:
 				e.Stalled = true
-				e.DeadlockMsg = "HARNESS: running thread did not reach a scheduling point within 60s (blocked in un-instrumented code?)"
+				e.DeadlockMsg = fmt.Sprintf("HARNESS: running thread did not reach a scheduling point within %v (blocked in un-instrumented code?)", watchdog)
 				e.abortAll()
 				return
 			}
